@@ -8,10 +8,18 @@ claimed = {
              note="Shapes: minimal/ones/twos (quick), + full(1) product (thorough). Record sets are one fixed batch (C05). The version filter of the comparison uses the repository's own struct-tag parser. unsafe build of package protocol not covered. Differential/legacy codec harnesses are listed in DESIGN.md when built."),
  "C11": dict(text="A single-goroutine Conn over a scripted net.Conn executes each operation (produce v2/v3/v7, fetch v2/v5/v10, list offsets, metadata v1/v6, group APIs, create/delete topics) against hand-encoded well-formed responses whose error-code fields are symbolic; on every path the solver proves: broker-reported error or success => connection kept and the read position is exactly at the next frame boundary, any other error => connection closed, and the follow-up operation returns its own response.",
              note="1 topic x 1 partition responses; frames are hand-encoded from the Kafka protocol guide (harness/shared/wire.go); single goroutine (concurrency is C06)."),
+ "C12": dict(text="ApiKey.SelectVersion is executed with a symbolic client range (synthetic registry entry) and a symbolic advertised range: highest common version, inside both ranges, whenever they overlap. A connPool brought to its state by the real update() from symbolic metadata (distinct symbolic broker ids, symbolic leaders and controller) routes produce/fetch to the partition leader, create-topics to the controller, metadata to the control connection, rejects unroutable requests without sending, follows a leader move after the next update(), and serves topic-filtered metadata from the cache exactly as the brokers answered.",
+             note="B<=3 brokers, P<=2 partitions (quick). Idle connections with buffered request channels are pre-populated so sendRequest is sequential; coordinator lookups, the refresh loop timing and connection churn are outside (listed in the evidence)."),
  "C13": dict(text="Every path of each Balance implementation is executed symbolically for keys of every content up to the stated length, a symbolic partition count in [1,2^31-1], arbitrary RoundRobin counter/ChunkSize and arbitrary LeastBytes counters; the solver proves the negated equivalence/membership assertions unsatisfiable on every path, or returns a key that is replayed natively.",
              note="Bounds: key length <= 8 (quick) / 32 (thorough); LeastBytes N <= 6/12; RoundRobin counter < 2^62. CRC-32 is an uninterpreted fold shared with the reference (polynomial trusted). sync.Mutex/Pool, math/rand, sort.Slice are stubs; concurrency is not explored here. Reference partitioners are transcriptions in harness/src/root/c13_ref.go."),
+ "C14": dict(text="Range, RoundRobin and RackAffinity AssignGroups are executed for members with symbolic, pairwise distinct ids (every relative order), symbolic subscriptions, every assignment of racks and, for RackAffinity, every map iteration order: each partition of a subscribed topic exactly once and only at a subscriber, loads within one, independence of listing order, contiguous run / every k-th element ordered by member id, and the in-rack placement bound.",
+             note="M<=3 members, P<=3 partitions, T<=2 topics, R=2 racks (quick); larger in thorough. Partition ids are concrete (the code never inspects them). sort.Slice is an insertion-sort shim."),
  "C17": dict(text="For each response type/version a well-formed frame over symbolic field values is delivered by a connection that ends (EOF or network error, one or two segments) after k bytes, for every k in [0,len): on every path ReadResponse returns a non-nil error and no message, without panic and within the unwinding bound.",
              note="Transport path (protocol.ReadResponse through protocol.Conn). Shapes minimal/ones (quick) + twos (thorough); quick covers the core APIs, thorough all registered types. The Conn-path truncation and reconnect behaviour are listed under outside_bounds in the evidence."),
+ "C18": dict(text="Dialer.connect with a SASL mechanism over a scripted connection: handshake v0 (raw) and v1 (framed), symbolic error codes on handshake and authenticate answers, the broker closing after any frame, PLAIN with symbolic credentials and a stub multi-step mechanism with nondeterministic step outcomes: on every path only ApiVersions/SaslHandshake/SaslAuthenticate requests (or raw auth bytes) are written, success iff every step was accepted, failure returns no connection and closes the socket, and PLAIN's token is \\0user\\0pass byte for byte.",
+             note="Conn created by a Dialer (legacy path). SCRAM cryptography and SASLprep are out of reach (stub state machine stands in); TLS not modelled; Transport connections are covered only up to what DESIGN.md states."),
+ "C19": dict(text="Conn.Seek is executed for every whence mode with and without SeekDontCheck against symbolic first/last/current/offset values: result and stored position per the documented table, OffsetOutOfRange exactly outside [first,last] with the position unchanged; ReadOffsets returns the broker's values, a partition error is reported as that error, and the request asks for the connection's partition with the first/last sentinels.",
+             note="1 topic x 1 partition hand-encoded responses; |offsets| < 2^61; Seek relative to the First/Last sentinels with SeekCurrent is outside. ListOffsets split/merge and Client mappings are listed as outside until their harness is added."),
  "C20": dict(text="protocol.ReadResponse is executed on N fully symbolic bytes per registered response type/version (size prefix honest with the body symbolic, and size prefix symbolic too): the solver shows that no path panics, that every loop stays within the unwinding bound, that every allocation whose size depends on the input stays below 64 KiB, and that the outcome is a message or an error.",
              note="N=16/8 bytes (quick, core APIs), deeper in thorough. Allocation obligation is checked at make/reflect.MakeSlice sites with input-dependent size. Record-batch fields covered by a CRC are out of scope (uninterpreted CRC). Legacy Conn readers are not part of this property."),
 }
